@@ -289,6 +289,21 @@ def main(ctx):
                           f'(endpoint under test: {role})',
                           {'module': 'Wire', 'asym': str(asym), 'role': role})
             ctx.count(('asym', role, str(asym)), nontrivial=True)
+    # identification strings: whatever precedes CR LF on the wire is V_C / V_S
+    # of the exchange hash, byte for byte (comments, several blanks, a
+    # trailing blank or tab, 253 characters) - both ends and the independent
+    # decoder must arrive at the same keys
+    versions = ['X_1.0', 'X_1.0 comment', 'X_1.0 two  blanks', 'X_1.0 trail ',
+                'X_1.0 tab\t', 'X_1.0  ', 'Y' * 245, 'x-y.z_0 ~!@#$%^&*()']
+    for side in ('client_version', 'server_version'):
+        for v in (versions if not quick else versions[1::2] + versions[:1]):
+            kw = {side: v}
+            pl = [b'v' * 50, b'w' * 3]
+            r = T.run_session(pl, client_kw=kw if side[0] == 'c' else None,
+                              server_kw=kw if side[0] == 's' else None)
+            judge_session(ctx, r, pl, f'{side}={v!r}',
+                          {'module': 'Wire', 'version': v, 'side': side})
+            ctx.count(('version', side, v), nontrivial=True)
     # re-keying against an independent peer (raw peer): one that repeats the
     # kex-strict marker in every KEXINIT, as asyncssh itself does, and one
     # that sends it in its first KEXINIT only, which the specification
